@@ -41,7 +41,7 @@ def rng_cases(rng, quick):
         if si % 7 == 0:
             vals.append('{{random()}} {{randint(%d,%d)}} {{random()}}' % (5, rng.range(-5, 4)))      # min > max: error after one draw
         for vi, v in enumerate(vals):
-            cases.append(Case('r%d_%d' % (si, vi), 'evalattr', [hx(v), '', str(seed)], {'value': v[:200], 'seed': seed}))
+            cases.append(Case('r%d_%d' % (si, vi), 'rngattr', [hx(v), '', str(seed)], {'value': v[:200], 'seed': seed}))
     return cases
 
 
@@ -159,9 +159,9 @@ def run(ctx):
             body += '<config seed="%d"/>' % s2 + ''.join('<text xy="9 %d" text="%s"/>' % (j, t) for j, t in enumerate(t2))
         xml = '<svg>%s</svg>' % body
         rdocs.append((doc_case('rd%d' % i, xml, {'seed': s1, 'add_auto_styles': False}), xml, s1, s2))
-        mcases.append(Case('rd%d_a' % i, 'evalattr', [hx(' '.join(t1)), '', str(s1)]))
+        mcases.append(Case('rd%d_a' % i, 'rngattr', [hx(' '.join(t1)), '', str(s1)]))
         if s2 is not None:
-            mcases.append(Case('rd%d_b' % i, 'evalattr', [hx(' '.join(t2)), '', str(s2)]))
+            mcases.append(Case('rd%d_b' % i, 'rngattr', [hx(' '.join(t2)), '', str(s2)]))
     if ctx['model_ok']:
         dimpl = lib.run_impl([d[0] for d in rdocs]); dmodel = lib.run_model(mcases)
         for c, xml, s1, s2 in rdocs:
